@@ -25,6 +25,7 @@ import (
 	"encoding/base64"
 	"encoding/json"
 	"fmt"
+	"net/http"
 	"os"
 	"path/filepath"
 	"regexp"
@@ -58,6 +59,10 @@ type c09Cfg struct {
 	IdPRefresh bool `json:"idp_refresh_tokens"`
 	TokTTL     int  `json:"access_token_ttl_s"`
 	Big        bool `json:"session_split_over_several_cookies,omitempty"`
+	RefreshErr bool `json:"provider_refresh_grant_fails,omitempty"`
+	// ExpireNS: a cookie-expire below one second, in nanoseconds (Expire is 0 then) — what a bare
+	// number in a configuration file amounts to
+	ExpireNS int `json:"cookie_expire_ns,omitempty"`
 }
 
 func (g c09Cfg) store() string {
@@ -71,6 +76,12 @@ func (g c09Cfg) String() string {
 	big := ""
 	if g.Big {
 		big = " split-session"
+	}
+	if g.RefreshErr {
+		big += " refresh-grant-fails"
+	}
+	if g.ExpireNS > 0 {
+		big += fmt.Sprintf(" expire=%dns", g.ExpireNS)
 	}
 	return fmt.Sprintf("expire=%ds refresh=%ds %s idp-refresh=%v token-ttl=%ds%s", g.Expire, g.Refresh, g.store(), g.IdPRefresh, g.TokTTL, big)
 }
@@ -114,6 +125,16 @@ func c09Configs(quick bool) []c09Cfg {
 	}
 	// a session that needs several cookies: every part is a session cookie with its own Max-Age
 	out = append(out, c09Cfg{Expire: 600, Refresh: 120, IdPRefresh: true, TokTTL: c09LongTTL, Big: true})
+	// a provider whose refresh grant fails (503) while the session still validates: the session is kept,
+	// and its lifetime still counts from the login
+	for _, redis := range []bool{false, true} {
+		out = append(out, c09Cfg{Expire: 600, Refresh: 120, Redis: redis, IdPRefresh: true, TokTTL: c09LongTTL, RefreshErr: true})
+	}
+	// a lifetime below the resolution of the time stamp (3600ns: "cookie_expire = 3600" in a file): whatever
+	// is older than that is refused — a lifetime that small is not "no lifetime"
+	for _, redis := range []bool{false, true} {
+		out = append(out, c09Cfg{ExpireNS: 3600, Redis: redis, IdPRefresh: true, TokTTL: c09LongTTL})
+	}
 	return out
 }
 
@@ -317,8 +338,21 @@ func c09NewWorld(g c09Cfg, e *c09Env) *c09World {
 	if g.Big {
 		idp.Users["alice"].Groups = c18BigGroups()
 	}
+	if g.RefreshErr {
+		idp.Intercept = func(c *world.Call, _ *http.Request) *world.Fault {
+			if c.Endpoint != "token" || c.Grant != "refresh_token" {
+				return nil
+			}
+			return &world.Fault{Kind: "503", Respond: func(req *http.Request, _ func() *http.Response) (*http.Response, error) {
+				return world.RawResponse(req, 503, "application/json", []byte(`{"error":"temporarily_unavailable"}`)), nil
+			}}
+		}
+	}
 	cfg := &ProxyCfg{Flags: append(baseFlags("static://200"), "--email-domain=*", "--cookie-secure=false",
 		fmt.Sprintf("--cookie-expire=%ds", g.Expire), fmt.Sprintf("--cookie-refresh=%ds", g.Refresh))}
+	if g.ExpireNS > 0 {
+		cfg.Flags = append(cfg.Flags, fmt.Sprintf("--cookie-expire=%dns", g.ExpireNS))
+	}
 	if g.Redis {
 		if e.redis == nil {
 			e.redis = world.NewRedis()
@@ -444,6 +478,9 @@ func (w *c09World) request(o c09Op) *c09Res {
 // before the request).
 func (w *c09World) judge(res *c09Res, o c09Op) {
 	now, E := res.NowMs, int64(w.g.Expire)*1000
+	if w.g.ExpireNS > 0 {
+		E = 1 // (ms) every age the clock can produce is past it, except the instant of issue
+	}
 	switch {
 	case res.Presented == -1:
 		res.Class = "no-credential"
@@ -551,6 +588,10 @@ func (w *c09World) observe(res *c09Res, resp *world.Resp, r0 int, login bool) {
 			res.ttls++
 			ttl, want := w.px.Redis.M.TTL(sc.Key), time.Duration(w.g.Expire)*time.Second
 			bad := ttl != want
+			if w.g.ExpireNS > 0 {
+				// the store rounds a sub-millisecond lifetime up to its own resolution
+				bad = ttl <= 0 || ttl > time.Second
+			}
 			if !legit {
 				// a re-save that is neither a login nor a refresh may keep the remaining lifetime;
 				// it must not outlive the configured one
